@@ -233,12 +233,13 @@ def regenerate(which: str) -> bool:
         groups = [(translate.source(fn), fn, func,
                    [F(d["name"], d["target"], d.get("occ", 1), d.get("ints", ()), d.get("kind", "expr")) for d in ds])
                   for (fn, func, ds) in sp["groups"]]
-        text = translate._parse_guard(translate.translate_formula_groups, groups, sp["namespace"], sp["title"])
+        text = translate._parse_guard(translate.translate_formula_groups, groups, sp["namespace"], sp["title"],
+                                      translate.GEN_DIR / sp["file"])
         return translate._write(translate.GEN_DIR / sp["file"], text)
     src = translate.source(sp["source"])
     specs = [F(name, target, occ) for (name, target, occ, _t, _c) in sp["formulas"]]
     text = translate._parse_guard(translate.translate_formulas, src, sp["source"], sp["func"], specs,
-                                  sp["namespace"], sp["file"])
+                                  sp["namespace"], sp["file"], translate.GEN_DIR / sp["file"])
     return translate._write(translate.GEN_DIR / sp["file"], text)
 
 
